@@ -1,9 +1,10 @@
 from __future__ import annotations
 
+import json
 from typing import IO, TYPE_CHECKING, Any
 from weakref import proxy
 
-from ase.io.jsonio import write_json
+from ase.io.jsonio import encode
 
 from quansino.io.core import TextObserver
 
@@ -39,7 +40,7 @@ class RestartObserver(TextObserver):
     accept_stream : bool
         Whether to accept a stream of data. This is set to False by default, as this observer does not handle streaming data.
     write_kwargs : dict[str, Any]
-        Additional keyword arguments to pass to the JSON writer function.
+        Additional keyword arguments for `json.dumps` (e.g. `indent`), applied to the encoded document.
     """
 
     accept_stream: bool = False
@@ -64,8 +65,15 @@ class RestartObserver(TextObserver):
 
     def __call__(self) -> None:
         """Call the function to write the restart data to the file."""
+        # the document first: if the simulation's `to_dict` or the encoder fails, the
+        # previous restart point is still in the file
+        document = encode(self.simulation)
+
+        if self.write_kwargs:
+            document = json.dumps(json.loads(document), **self.write_kwargs)
+
         self._file.seek(0)
         self._file.truncate()
 
-        write_json(self._file, obj=self.simulation, **self.write_kwargs)
+        self._file.write(document)
         self._file.flush()
